@@ -422,11 +422,12 @@ func main() {
 	}
 	cl := load(filepath.Join(*repo, "client"))
 	st := load(filepath.Join(*repo, "state"))
+	lg := load(filepath.Join(*repo, "logging"))
 	o := &out{}
 	o.b.WriteString("/-! GENERATED by harness/cmd/extract from /repo's working tree — do not edit.\nPlain data only; the obligations about it are in `Goirc/FactsCheck.lean`. -/\nnamespace Facts\n\n")
 	factsClient(cl, o)
 	factsState(st, o)
-	factsClosure(cl, st, o)
+	factsClosure(cl, st, lg, o)
 	o.b.WriteString("\nend Facts\n")
 	new := []byte(o.b.String())
 	if old, err := os.ReadFile(*outPath); err == nil && bytes.Equal(old, new) {
